@@ -7,8 +7,8 @@ python3 tools/assemble.py
 cd coq
 coq_makefile -f _CoqProject -o Makefile
 timeout 3000 make -k -j16 || true
-cd extract
-timeout 600 coqc -Q .. Cocls Extract.v
-cd ../..
-ocaml/build.sh
+cd ..
+# extraction + OCaml build of bin/modelrun (records a stamp so that checks skip the rebuild while the model sources are unchanged)
+rm -f build/modelrun.stamp
+python3 -c "import sys; sys.path.insert(0, 'tools'); import vlib; ok, log = vlib.build_modelrun(); print(log[-2000:] if not ok else 'modelrun built'); sys.exit(0 if ok else 1)"
 echo setup done
